@@ -330,7 +330,7 @@ package filesys
 //@   panics_only_if [valid reads never fail] !nofault()
 //@   ensures [exactly the bytes of offset..offset+length that exist] int64(offset) >= 0 ==> uint64(len(result)) == (offset >= uint64(ksize[fino[int(f)]]) ? 0 : min(length, uint64(ksize[fino[int(f)]]) - offset))
 //@   ensures [contents] forall i uint64 :: i < uint64(len(result)) ==> result[i] == kdata[fino[int(f)]][int64(offset + i)]
-//@   ensures [result is fresh storage] fresh(result)
+//@   ensures [result is fresh storage] len(result) == 0 || fresh(result)
 
 //@ func (DirFs).Delete
 //@   requires dinv(fs) && disdir(fs, dir) && simple(fname)
@@ -366,7 +366,7 @@ package filesys
 //@   ensures [previous inode untouched] untouched(old(dname(fs, dir, fname)))
 //@   ensures [only dir/name and dir/name.tmp are touched] forall d Int, n string :: !(d == ddir(fs, dir) && (n == fname || n == fname + ".tmp")) ==> kdent[d][n] == old(kdent)[d][n]
 //@   ensures [temp name is gone] dname(fs, dir, fname + ".tmp") == 0
-//@   ensures [other files' contents untouched] forall i Int :: i != dname(fs, dir, fname) ==> kdata[i] == old(kdata)[i] || i == old(dname(fs, dir, fname + ".tmp")) 
+//@   ensures [other files' contents untouched] forall i Int :: i != dname(fs, dir, fname) ==> kdata[i] == old(kdata)[i] || i == old(dname(fs, dir, fname + ".tmp"))
 //@   modifies kdent, kisdir, kdata, ksize, kddata, kdsize, fopen, fino, foff, fwr, frd
 //@   loop 1 invariant [descriptor on the temp inode] fopen[fd] && fwr[fd] && fino[fd] == dname(fs, dir, fname + ".tmp") && fino[fd] != 0 && fino[fd] != old(dname(fs, dir, fname)) && fd != fs.rootFd
 //@   loop 1 invariant [root still open] fopen[fs.rootFd] && fino[fs.rootFd] == old(fino)[fs.rootFd]
